@@ -1,3 +1,22 @@
-import Mwp.Model.Syntax
+/-
+  C07 — Unsupported statements are dropped exactly, and only they (the removal pass).
+  `Syntax.coverage n = .ok (k, m)`: `k` handler calls (unsupported constructs reported), `m` the
+  tree after `ast_mod`.  Proofs: Mwp/Lemmas/SyntaxThmsCov*.lean.
+  That the analysis result is unchanged by inserted unsupported statements over fresh
+  identifiers is checked on the real code (harness/props/c07.py): the removal pass yields the
+  original tree up to empty statements, which the analysis skips.
+-/
+import Mwp.Lemmas.SyntaxThmsCov2
 namespace Mwp.Props.C07
+open Mwp Mwp.Syntax
+
+/-- a fully supported function is left untouched by the removal pass -/
+theorem fully_supported_untouched (n m : Node) (h : coverage n = .ok (0, m)) : m = n :=
+  coverage_full_untouched n m h
+
+/-- after the removal pass the syntax check reports full support, and a second pass changes nothing -/
+theorem full_after_removal (n m : Node) (k : Nat) (h : coverage n = .ok (k, m)) :
+    coverage m = .ok (0, m) :=
+  coverage_mod_full n m k h
+
 end Mwp.Props.C07
